@@ -12,6 +12,7 @@ import asyncio
 import datetime
 import decimal
 import enum
+import importlib
 import io
 import itertools
 import json
@@ -358,6 +359,10 @@ def gen_call(ctx: WorkCtx, allow_uploads=True):
         spec["args"] = a
     spec["containers"] = list(ctx.containers)
     spec["multipart"] = ctx.n_upload_refs > before or _refs_upload_container(spec)
+    # the caller keeps objects between its calls: the input model of its previous create_item call with one field assigned anew,
+    # and the Upload objects it already sent (rewound)
+    spec["reuse_model"] = via == "create_item" and ch.chance("w.reuse_model", 1, 3)
+    spec["reuse_upload_objects"] = spec["multipart"] and ch.chance("w.reuse_uploads", 1, 3)
     spec["kw"] = gen_kwargs(ch, spec["multipart"])
     return spec
 
@@ -439,14 +444,28 @@ def generated_query(opname: str) -> str:
     return _QUERY_CACHE[opname]
 
 
-def call_inputs(spec, N: Names, uploads_spec):
-    """(query, operation_name, variables-as-the-client-receives-them, python kwargs, upload objects)."""
+def call_inputs(spec, N: Names, uploads_spec, upload_pool=None):
+    """(query, operation_name, variables-as-the-client-receives-them, python kwargs, upload objects).
+    upload_pool: Upload objects this caller created for earlier calls; with spec["reuse_upload_objects"] they are rewound and
+    sent again (the same object, not an equal one)."""
     objs: Dict[int, Any] = {}
+    if upload_pool is not None and spec.get("reuse_upload_objects"):
+        objs.update(upload_pool)
+    try:
+        return _call_inputs(spec, N, uploads_spec, objs)
+    finally:
+        if upload_pool is not None:
+            upload_pool.update(objs)
+
+
+def _call_inputs(spec, N: Names, uploads_spec, objs):
     if spec["via"] == "execute":
         v = spec["vars"]
         built: Dict[int, Any] = {}
         variables = None if v is None else {k: instantiate(n, N, uploads_spec, objs, spec.get("containers") or [], built) for k, n in v.items()}
         return spec["query"], spec["opname"], variables, None, objs
+    if spec["via"] == "custom_query":
+        return None, None, {}, {}, objs
     built2: Dict[int, Any] = {}
     args = {k: instantiate(n, N, uploads_spec, objs, spec.get("containers") or [], built2) for k, n in spec["args"].items()}
     op = GEN_OPS[spec["via"]]
@@ -460,6 +479,8 @@ class CallRec:
     def __init__(self, caller, k, spec, nonce):
         self.caller, self.k, self.spec, self.nonce = caller, k, spec, nonce
         self.inputs = None          # (query, opname, variables, objs)
+        self.expected = None        # reference request, computed at call time (json requests)
+        self.expected_vj = None
         self.outcome = None         # ("ok", value) | ("exc", typename, info)
         self.exc_obj = None
         self.response = None
@@ -581,8 +602,41 @@ def run_workload(ch: Choices, variant: str, callers: List[List[dict]], uploads_s
         lst = by_caller.get(int(who[1:]), [])
         return lst[k].nonce if k < len(lst) else None
 
+    upload_pools: Dict[int, Dict[int, Any]] = {}
+    kept_models: Dict[int, Any] = {}
+
+    def at_call_time(rec: CallRec, q, op, variables, args):
+        """What the caller does right before issuing the call: rewind re-used uploads, re-use and edit its previous model.
+        Also takes the snapshot of what the reference model expects for exactly this moment."""
+        if rec.spec.get("reuse_upload_objects"):
+            for o in (rec.inputs[3] or {}).values():
+                try:
+                    o.content.seek(0)
+                except Exception:
+                    pass
+        if rec.spec["via"] == "create_item":
+            prev = kept_models.get(rec.caller)
+            if rec.spec.get("reuse_model") and prev is not None and not rec.spec["multipart"] and not prev[1]:
+                obj = prev[0]
+                obj.name = "kept-and-renamed-for-%s" % rec.nonce       # a field that was already set gets a new value
+                args = {"input": obj}
+                variables = {"input": obj}
+                rec.inputs = (q, op, variables, rec.inputs[3])
+                info["model_objects_reused"] = info.get("model_objects_reused", 0) + 1
+            else:
+                kept_models[rec.caller] = (args["input"], rec.spec["multipart"])
+        try:
+            from .models.request_model import expected_request, variables_json
+            import copy as _copy
+            if not rec.spec["multipart"]:
+                rec.expected = _copy.deepcopy(expected_request(q, op, variables))
+                rec.expected_vj = _copy.deepcopy(variables_json(variables)[0])
+        except Exception:
+            pass
+        return variables, args
+
     def prep(rec: CallRec, N: Names):
-        q, op, variables, args, objs = call_inputs(rec.spec, N, uploads_spec)
+        q, op, variables, args, objs = call_inputs(rec.spec, N, uploads_spec, upload_pools.setdefault(rec.caller, {}))
         rec.inputs = (q, op, variables, objs)
         kw = {}
         skw = rec.spec["kw"]
@@ -618,6 +672,7 @@ def run_workload(ch: Choices, variant: str, callers: List[List[dict]], uploads_s
 
                 async def one(rec: CallRec):
                     q, op, variables, args, kw = prep(rec, N)     # harness code
+                    variables, args = at_call_time(rec, q, op, variables, args)
                     rec.t_call = loop.next_seq()
 
                     async def the_call():
@@ -625,6 +680,10 @@ def run_workload(ch: Choices, variant: str, callers: List[List[dict]], uploads_s
                             resp = await client.execute(q, op, variables, **kw)
                             rec.response = resp
                             return ("ok", _outcome_value(client.get_data(resp)))
+                        if rec.spec["via"] == "custom_query":
+                            cq = importlib.import_module(type(client).__module__.rsplit(".", 1)[0] + ".custom_queries")
+                            val = await client.query(cq.Query.ping(), operation_name="zz_nonce_%s" % rec.nonce)
+                            return ("ok", _outcome_value(val))
                         val = await getattr(client, rec.spec["via"])(**args, **kw)
                         return ("ok", _outcome_value(val))
                     try:
@@ -709,12 +768,17 @@ def run_workload(ch: Choices, variant: str, callers: List[List[dict]], uploads_s
 
             def one(rec: CallRec):
                 q, op, variables, args, kw = prepared[id(rec)]
+                variables, args = at_call_time(rec, q, op, variables, args)
                 rec.t_call = next_seq()
                 try:
                     if rec.spec["via"] == "execute":
                         resp = client.execute(q, op, variables, **kw)
                         rec.response = resp
                         rec.outcome = ("ok", _outcome_value(client.get_data(resp)))
+                    elif rec.spec["via"] == "custom_query":
+                        cq = importlib.import_module(type(client).__module__.rsplit(".", 1)[0] + ".custom_queries")
+                        val = client.query(cq.Query.ping(), operation_name="zz_nonce_%s" % rec.nonce)
+                        rec.outcome = ("ok", _outcome_value(val))
                     else:
                         val = getattr(client, rec.spec["via"])(**args, **kw)
                         rec.outcome = ("ok", _outcome_value(val))
